@@ -344,7 +344,13 @@ static void run_job(AsmJob *job, const char *source)
 
   if (opts.file_type >= 0 && !opts.outfile.empty())
   {
-    file_write(opts.outfile.c_str(), ctx, opts.file_type);
+    bool sparse = opts.file_type == FILE_TYPE_HEX || opts.file_type == FILE_TYPE_SREC || opts.file_type == FILE_TYPE_WDC;
+    uint64_t span = ctx->memory.high_address >= ctx->memory.low_address ?
+                    (uint64_t)ctx->memory.high_address - ctx->memory.low_address + 1 : 0;
+    if (sparse || opts.max_dense_span <= 0 || span <= (uint64_t)opts.max_dense_span)
+    {
+      file_write(opts.outfile.c_str(), ctx, opts.file_type);
+    }
   }
 
   r.phase = 0;
